@@ -152,4 +152,106 @@ def cellOf : Input → Option CellC
   | .formula _ => none
   | .number _ _ => none
 
+/-! ### the cell's prior state: the style flags `set_user_input` reads and writes
+
+  `set_user_input` does not start from nothing: the cell already has a style (index) whose
+  `quote_prefix` flag and `num_fmt` decide what the editor shows afterwards.  The model below makes
+  that state explicit, so that the re-entry statements quantify over ALL prior states. -/
+
+/-- the part of a cell style that `set_user_input` / `get_localized_cell_content` look at -/
+structure Style where
+  quote : Bool
+  /-- `num_fmt`; `none` = `"general"` -/
+  fmt : Option (List Char)
+deriving Repr, DecidableEq
+
+/-- models `is_likely_date_number_format` on the formats used here: a day, month or year letter
+    outside `"…"`, `[…]` and `\x` (assumption checked by the correspondence run on every format the
+    generators use) -/
+def isLikelyDateAux : List Char → Bool → Bool → Bool
+  | [], _, _ => false
+  | c :: cs, inQuote, inBracket =>
+    if inQuote then isLikelyDateAux cs (c != '"') false
+    else if inBracket then isLikelyDateAux cs false (c != ']')
+    else if c == '"' then isLikelyDateAux cs true false
+    else if c == '[' then isLikelyDateAux cs false true
+    else if c == '\\' then isLikelyDateAux cs.tail false false
+    else if c == 'd' || c == 'D' || c == 'm' || c == 'M' || c == 'y' || c == 'Y' then true
+    else isLikelyDateAux cs false false
+termination_by cs => cs.length
+decreasing_by all_goals (simp_wf; try omega) <;> (cases cs <;> simp <;> omega)
+
+def isLikelyDate : Option (List Char) → Bool
+  | none => false
+  | some f => isLikelyDateAux f false false
+
+/-- what a non-formula cell holds -/
+inductive Content where
+  | empty
+  | str (s : List Char)
+  | num (shown : Shown)
+  | bool (b : Bool)
+  | err (i : Nat)
+  | formula
+deriving Repr, DecidableEq
+
+/-- the style a recognised number leaves: quote prefix cleared; the format its text implies is
+    applied unless both the old and the new format are date formats (`should_apply_format`) -/
+def numStyle (st : Style) : Option (List Char) → Style
+  | none => { st with quote := false }
+  | some f =>
+    if isLikelyDate st.fmt && isLikelyDate (some f) then { st with quote := false }
+    else { quote := false, fmt := some f }
+
+/-- models the style `set_user_input` leaves on the cell:
+    * empty input: the contents are cleared and the style is kept, without its quote prefix
+      (after fix F18h; the pinned code kept the quote prefix on the emptied cell);
+    * `'text`: `get_style_with_quote_prefix`;
+    * everything else: the quote prefix is cleared; a recognised number applies the format its
+      text implies unless both the old and the new format are date formats.
+    (The format a formula may receive from its units is not modelled.) -/
+def styleAfter (st : Style) : Input → Style
+  | .empty => { st with quote := false }
+  | .quoted _ => { st with quote := true }
+  | .number _ k => numStyle st k.format
+  | _ => { st with quote := false }
+
+/-- the stored content; `shownOf` = the 15-digit decimal of the double a recognised value is
+    stored as (outside the model; the driver computes it exactly) -/
+def contentAfter (shownOf : Value → Shown) : Input → Content
+  | .empty => .empty
+  | .quoted t => .str t
+  | .text s => .str s
+  | .boolean b => .bool b
+  | .error i => .err i
+  | .number v _ => .num (shownOf v)
+  | .formula _ => .formula
+
+/-- models `Model::set_user_input` on a cell whose style is `st` -/
+def applyInput (ℓ : Locale) (lang : Lang) (shownOf : Value → Shown) (st : Style) (x : List Char) :
+    Content × Style :=
+  (contentAfter shownOf (classify ℓ lang x), styleAfter st (classify ℓ lang x))
+
+/-- models `Cell::get_localized_text` -/
+def contentText (ℓ : Locale) (lang : Lang) : Content → List Char
+  | .empty => []
+  | .str s => s
+  | .num d => printShown ℓ.dec d
+  | .bool true => lang.trueName
+  | .bool false => lang.falseName
+  | .err i => lang.errors.getD i []
+  | .formula => []
+
+/-- models `Model::get_localized_cell_content` for a cell that exists: `none` = outside the model
+    (a formula, or a number under a date format, which goes through the formatter) -/
+def displayS (ℓ : Locale) (lang : Lang) (c : Content) (st : Style) : Option (List Char) :=
+  match c with
+  | .formula => none
+  | _ =>
+    if st.quote then some ('\'' :: contentText ℓ lang c)
+    else
+      match c with
+      | .num _ => if isLikelyDate st.fmt then none else some (contentText ℓ lang c)
+      | _ => some (contentText ℓ lang c)
+
 end IronCalc.Reenter
